@@ -170,6 +170,51 @@ def expand(acc, batch, last=False, meta=None, alphabet=None):
             acc.out.append((e2.world_key(w2), w2, trace + [list(a) if not isinstance(a, list) else a]))
 
 
+def mixed_expand(acc, batch, last=False, meta=None):
+    """Mixed-command histories (run / cancel / touch / clean / scheduler steps / perturbations): in every reachable state the status
+    table must equal the reference plan, the dry run must announce exactly the plan's submissions, and neither preview may change anything."""
+    for world, trace in batch:
+        acc.case(key=e2.world_key(world), outcome=None, nontrivial=True, sample=dict(meta=meta, trace=trace) if len(trace) == 3 else None)
+        pl = CW.ref_plan(world)
+        base_sem = world.semantic()
+        with W.Session(world) as s:
+            r = s.gwf(["status"])
+            rd = s.gwf(["run", "-d"])
+            snap = s.snapshot()
+            j = [e for e in s.sim.s["journal"] if e["op"] in ("submit", "cancel")]
+        acc.extra["invocations"] += 2
+        rows = W.parse_status(r.stdout) if r.exit_code == 0 and not r.crashed() else None
+        would = sorted(W.parse_would_submit(rd.stderr + rd.stdout)) if rd.exit_code == 0 else None
+        case = dict(kind="mixed", meta=meta, trace=trace)
+        problems = []
+        if rows != pl["status"]:
+            problems.append(f"status {rows} expected {pl['status']}")
+        if would != sorted(pl["submitted"]):
+            problems.append(f"dry run announces {would}, plan submits {sorted(pl['submitted'])}")
+        if j or snap.semantic() != base_sem:
+            problems.append("previews changed the project or contacted the scheduler")
+        acc.case(key=None, outcome=f"mixed rows={sorted(set((rows or {}).values()))}", nontrivial=False)
+        if problems:
+            acc.violation(sig=dict(what="mixed-command history: " + problems[0].split(" ")[0], backend=meta["backend"], last=trace[-1][1][0] if trace and trace[-1][0] == "gwf" else (trace[-1][0] if trace else None)),
+                          case=case, observed=problems, msg=f"[{meta['wf']}/{meta['backend']}/hash={meta['hashing']}] after {trace}: {problems}")
+        if last:
+            continue
+        names = world.wf.names()
+        acts = [("gwf", ["run"]), ("gwf", ["run", names[1]]), ("gwf", ["cancel", "-f"]), ("gwf", ["cancel", names[1]]), ("carry_out_cancels",), ("gwf", ["touch"]), ("gwf", ["touch", names[1]]),
+                ("gwf", ["clean", "-f", "--all"]), ("gwf", ["clean", names[0]]), ("modify", "src"), ("delete", world.wf.targets[0].flat("outputs")[0]), ("editspec", names[1])]
+        acts += CW.enabled_env(world, kinds=("start", "finish_ok", "finish_fail", "forget"))
+        for a in acts:
+            if a[0] == "delete" and a[1] not in world.files:
+                continue
+            w2, res = CW.apply_action(world, a)
+            if res is not None and res.crashed():
+                acc.violation(sig=dict(what="mixed-command history: command crashed", backend=meta["backend"], last=a[1][0]), case=dict(kind="mixed", meta=meta, trace=trace + [list(a)]),
+                              observed=res.as_dict(), msg=f"[{meta}] after {trace}: gwf {a[1]} crashed: {res.exc}")
+                continue
+            w2.normalize()
+            acc.out.append((e2.world_key(w2), w2, trace + [list(a)]))
+
+
 CONFIGS_QUICK = [
     # (workflow, backend, accounting, hashing, fresh, depth)
     ("fork", "slurm", True, False, False, 4),
@@ -205,6 +250,11 @@ def run(ctx):
         w0 = CW.init_world(wfname, backend, hashing=hashing, fresh=fresh, accounting=acct)
         lv = e2.bfs(ctx, me, "expand", [w0], depth, chunk=2, meta=meta, alphabet=alphabet_for(wfname))
         done.append(dict(meta, depth=depth, levels_completed=lv))
+    for wfname, backend, hashing, depth in ([("fork", "slurm", True, 2), ("chain", "lsf", False, 2)] if ctx.tier == "quick" else
+                                            [("fork", "slurm", True, 4), ("chain", "lsf", False, 4), ("fork", "sge", True, 3), ("diamond", "slurm", False, 3)]):
+        meta = dict(wf=wfname, backend=backend, accounting=True, hashing=hashing, fresh=False, mixed=True)
+        e2.bfs(ctx, me, "mixed_expand", [CW.init_world(wfname, backend, hashing=hashing), CW.init_world(wfname, backend, hashing=hashing, fresh=True)], depth, chunk=2, meta=meta)
+        done.append(dict(meta, depth=depth))
     local_done = localchecks.run_local(ctx, me, ID, [("fork", 3)] if ctx.tier == "quick" else [("fork", 5), ("twocomp", 4)])
     ctx.notes.setdefault("coverage_extra", {})["local_backend"] = local_done
     ctx.traces_validated = ctx.acc.extra["transitions"]
@@ -232,6 +282,23 @@ def replay(case):
     from mc.runner import Acc
 
     meta, trace = case["meta"], case["trace"]
+    if case.get("kind") == "mixed":
+        from mc.runner import Acc
+
+        for fresh in (False, True):
+            w = CW.init_world(meta["wf"], meta["backend"], hashing=meta["hashing"], fresh=fresh)
+            try:
+                for a in trace:
+                    a = tuple(a) if a[0] != "gwf" else ("gwf", a[1])
+                    w, _ = CW.apply_action(w, a)
+                    w.normalize()
+            except Exception:
+                continue
+            acc = Acc()
+            mixed_expand(acc, [(w, trace)], last=True, meta=meta)
+            if acc.violations:
+                return acc.violations
+        return []
     w = CW.init_world(meta["wf"], meta["backend"], hashing=meta["hashing"], fresh=meta["fresh"], accounting=meta["accounting"])
     for a in trace:
         a = tuple(a) if a[0] != "gwf" else ("gwf", a[1])
